@@ -43,7 +43,9 @@ MANIFEST = {
     "engine": "E10b-ClassPath",
     "technique": "Lean 4 proof over a model of the subclass branch of adapt_typehints / adapt_class_type / instantiate_classes (all class "
                  "environments, all specs, all sequences of sources) + regenerated literals and scalar-coercion table + differential correspondence "
-                 "on generated class families written as real packages + independent reference and constructor-log oracle",
+                 "on generated class families written as real packages (single option, several options with prefix-related names over several "
+                 "config sources, dataclass / Union[dataclass, class] arguments with same-named classes in other modules) + regenerated statements of "
+                 "the anchored functions pinned by theorem + independent reference and constructor-log oracle",
     "text": "Theorems in lean/Jap/Props/C14.lean prove for every class environment that what is stored after any sequence of sources names an import "
             "that is a subclass of the declared type (or a function returning one) with init_args that are parameters of exactly that class and "
             "accepted by their types (C14_checked*, C14_discard for class changes, C14_checked_final for defaults), that a failing import, a "
@@ -54,7 +56,15 @@ MANIFEST = {
             "every dict key is adapted with the previous value of that very key (C14_dict_per_key, C14_dict_dotted_key), every list item with "
             "the previous item of the same index iff the lengths agree (C14_list_per_item, C14_list_other_length, C14_list_prev_names_no_class, "
             "C14_list_append), every element of an accepted container is checked (C14_checked_containers) and built once, children first, in "
-            "container order (C14_built_containers, C14_built_container_item). The model is tied to /repo by regenerating the spec keys, the dotted-option roots "
+            "container order (C14_built_containers, C14_built_container_item); for several class-typed options in one parser the work-list "
+            "walk of the merge (ActionTypeHint.discard_init_args_on_class_path_change, transcribed as discardWalk with the separator literal "
+            "regenerated from the source) handles EVERY option that holds a class spec on both sides, whatever the other options are called "
+            "(C14_walk_handles_every_option, C14_walk_handles_only_specs); for dataclass-typed values (Optional/List/Dict/Union members) a "
+            "class_path is accepted only when it IS the import path of the declared dataclass (C14_data_class_path_identity, "
+            "C14_data_rejects_other_class) and for Union[dataclass, class] in either order an accepted class_path is the dataclass itself or passed "
+            "the class member's import/subclass check (C14_union_data_class). The statements of the walk, of the module-level discard, of "
+            "resolve_class_path_by_name, of the dict_kwargs handling of adapt_class_type and of the Dataclass-like class_path test are "
+            "regenerated and pinned (C14_statements_pinned). The model is tied to /repo by regenerating the spec keys, the dotted-option roots "
             "and the live scalar coercion matrix into Gen/ClassPathTables (C14_tables_pinned), and by generating class families as real packages "
             "(re-exports, duplicate names, abstract bases, factories, **kwargs, nested class parameters) and comparing parse results, error classes "
             "and constructor logs with the model; the property is evaluated on the real code against a reference written from the property statement.",
@@ -64,7 +74,12 @@ MANIFEST = {
                   "environment without factory functions). Open finding C14-stale-dict-kwargs (dict_kwargs survive a class change; reproduced by "
                   "the model, witness theorem). Open finding C14-dotted-sub-option-into-dict-entry (reproduced by the model, witness theorem). Outside the model: Union of "
                   "classes and List/Dict parameters nested inside a class (oracle only; top-level List/Dict arguments are in the model), protocols, generics, "
-                  "Callable[..., Base], argument defaults, None given for a scalar parameter, parameters named like Namespace methods.",
+                  "Callable[..., Base], argument defaults, None given for a scalar parameter, parameters named like Namespace methods. "
+                  "Several class-typed options per parser (option names that are prefixes of each other, config sources holding several options, "
+                  "interleaved argv) and dataclass-typed arguments in class_path form with same-named classes in other modules are evaluated by the "
+                  "oracle per option / per named class; the walk is also compared with discardWalk on the real function; field validation of "
+                  "dataclasses and the final re-adaptation of stored Union values are oracle only. Open finding "
+                  "C14-union-dataclass-spec-rebuilt-as-class-arm (Union[Class, Dataclass] given the dataclass's exact class_path is built as the class).",
 }
 
 F_STALE_DK = "C14-stale-dict-kwargs"
@@ -432,7 +447,7 @@ def raw_to_json(fam, raw):
     return raw
 
 
-def build_argv(fam, sources):
+def build_argv(fam, sources, opt="opt"):
     argv = []
     for s in sources:
         if s["form"] == "default":
@@ -445,7 +460,7 @@ def build_argv(fam, sources):
                 key.append(k)
             raw = s["raw"]
             text = full(fam, raw["name"]) if isinstance(raw, dict) and "name" in raw else (json.dumps(raw_to_json(fam, raw)) if isinstance(raw, dict) else text_of(raw))
-            argv.append("--opt.%s=%s" % (".".join(key), text))
+            argv.append("--%s.%s=%s" % (opt, ".".join(key), text))
         else:
             j = raw_to_json(fam, s["raw"])
             if s.get("via") == "file" and isinstance(j, dict):
@@ -453,13 +468,13 @@ def build_argv(fam, sources):
                 name = os.path.join(pkg_dir(), "spec_%s.json" % hashlib.sha256(json.dumps(j, sort_keys=True).encode()).hexdigest()[:12])
                 with open(name, "w") as f:
                     f.write(json.dumps(j))
-                argv += ["--opt", name]
+                argv += ["--" + opt, name]
             elif s.get("via") == "config":
-                argv += ["--config", json.dumps({"opt": j})]
+                argv += ["--config", json.dumps({opt: j})]
             elif isinstance(j, str):
-                argv.append("--opt=" + j)
+                argv.append("--%s=%s" % (opt, j))
             else:
-                argv += ["--opt", json.dumps(j)]
+                argv += ["--" + opt, json.dumps(j)]
     return argv
 
 
@@ -1848,6 +1863,669 @@ def run_container_multi(ctx: Ctx, fam, ckind, sources, origin):
 
 
 # ---------------------------------------------------------------------------------------------
+# SEVERAL class-typed options in one parser, fed by several sources (config sources holding several options, argv).
+# The property is per option: what an option holds in the end depends on ITS OWN sources only (a class change of one
+# option discards exactly the init_args its new class does not accept, whatever the other options are called or hold).
+# A case: {"names": [option names in add order], "types": {name: T}, "steps": [step]},
+#   step = {"config": [[name, raw]], "via": "config"|"cfgfile"} | {"opt": name, "src": source}
+# Option names include pairs where one name is a string prefix of the other (opt / opt2, model / model_ema).
+# ---------------------------------------------------------------------------------------------
+OPTION_NAME_SETS = [["opt", "opt2"], ["opt2", "opt"], ["model", "model_ema"], ["model_ema", "sched", "model"], ["net", "net_d", "netx"],
+                    ["a", "ab", "abc"], ["opt", "sched"], ["enc", "dec"], ["opt_b", "opt", "o"], ["optim", "opt"]]
+
+
+def multi_sources_of(case, name):
+    out = []
+    for st in case["steps"]:
+        if "config" in st:
+            for n, raw in st["config"]:
+                if n == name:
+                    out.append({"form": "value", "raw": raw, "via": "config"})
+        elif st["opt"] == name:
+            out.append(st["src"])
+    return out
+
+
+def multi_argv(fam, case):
+    argv = []
+    for st in case["steps"]:
+        if "config" in st:
+            j = {n: raw_to_json(fam, raw) for n, raw in st["config"]}
+            if st.get("via") == "cfgfile":
+                name = os.path.join(pkg_dir(), "cfg_%s.json" % hashlib.sha256(json.dumps(j, sort_keys=True).encode()).hexdigest()[:12])
+                with open(name, "w") as f:
+                    f.write(json.dumps(j))
+                argv.append("--config=" + name)
+            else:
+                argv += ["--config", json.dumps(j)]
+        else:
+            argv += build_argv(fam, [st["src"]], opt=st["opt"])
+    return argv
+
+
+def multi_skip(fam, case):
+    """sequences that fall into an open finding's class for one of the options are not judged here"""
+    for n in case["names"]:
+        srcs = multi_sources_of(case, n)
+        if has_dk_before_change(fam, case["types"][n], srcs) or reference(fam, case["types"][n], srcs) == ("reject", "noneForScalar"):
+            return True
+    return False
+
+
+def multi_real(fam, case):
+    from jsonargparse import ArgumentError, ArgumentParser
+
+    mod = module_for(fam)
+    argv = multi_argv(fam, case)
+    parser = ArgumentParser(exit_on_error=False)
+    parser.add_argument("--config", action="config")
+    for n in case["names"]:
+        kw = {}
+        if any("opt" in st and st["opt"] == n and st["src"].get("via") == "file" for st in case["steps"]):
+            kw["enable_path"] = True
+        parser.add_argument("--" + n, type=getattr(mod, case["types"][n]), **kw)
+    err = io.StringIO()
+    try:
+        with contextlib.redirect_stderr(err):
+            cfg = parser.parse_args(list(argv))
+    except ArgumentError as ex:
+        return {"kind": "reject", "cat": err_category(str(ex)), "msg": str(ex).replace("\n", " | ")[:400]}
+    except SystemExit as ex:
+        return {"kind": "exit:%r" % (ex.code,)}
+    except Exception as ex:  # noqa: BLE001
+        return {"kind": "crash", "msg": "%s: %s" % (type(ex).__name__, str(ex)[:300])}
+    out = {"kind": "ok", "cfg": {n: (canon_real(cfg.get(n)) if cfg.get(n) is not None else None) for n in case["names"]}}
+    mod.LOG.clear()
+    try:
+        init = parser.instantiate_classes(cfg)
+    except Exception as ex:  # noqa: BLE001
+        mod.LOG.clear()
+        out["inst_error"] = "%s: %s" % (type(ex).__name__, str(ex)[:300])
+        return out
+    log = list(mod.LOG)
+    mod.LOG.clear()
+    ids = {oid: i for i, (_, oid, _, _) in enumerate(log)}
+    out["ctors"] = [{"target": canonical(fam, name),
+                     "args": {k: ({"obj": ids[id(v)]} if id(v) in ids and not isinstance(v, (int, str, float, bool, type(None))) else {"lit": lit(v)}) for k, v in args.items()},
+                     "kwargs": {k: {"lit": lit(v)} for k, v in kwargs.items()}} for name, _, args, kwargs in log]
+    out["types"] = {}
+    out["obj_idx"] = {}
+    for n in case["names"]:
+        obj = init.get(n)
+        if obj is None:
+            out["types"][n] = None
+            continue
+        tname = ("defs2." if type(obj).__module__.endswith(".defs2") else "") + type(obj).__name__
+        out["types"][n] = canonical(fam, tname)
+        out["obj_idx"][n] = ids.get(id(obj))
+    return out
+
+
+def multi_expected(fam, case):
+    """('ok', {name: final state | None}) | ('reject', name, category): every option judged on its own sources"""
+    states = {}
+    for n in case["names"]:
+        srcs = multi_sources_of(case, n)
+        if not srcs:
+            states[n] = None
+            continue
+        r = reference(fam, case["types"][n], srcs)
+        if r[0] == "reject":
+            return ("reject", n, r[1])
+        states[n] = r[1]
+    return ("ok", states)
+
+
+def multi_problem(fam, case, real):
+    exp = multi_expected(fam, case)
+    if real["kind"] not in ("ok", "reject"):
+        return "parsing neither succeeds nor raises ArgumentError: %s %s" % (real["kind"], real.get("msg", ""))
+    if exp[0] == "reject":
+        if real["kind"] == "ok":
+            return "option %s: a value that must be rejected (%s) is accepted: %s" % (exp[1], exp[2], json.dumps(real["cfg"].get(exp[1]))[:300])
+        return None
+    if real["kind"] == "reject":
+        return "a valid configuration of several class-typed options is rejected: %s" % real.get("msg", "")[:300]
+    for n in case["names"]:
+        want = canon_state(fam, exp[1][n])
+        if real["cfg"][n] != want:
+            return "option %s does not hold what ITS sources configure: got %s expected %s" % (
+                n, json.dumps(real["cfg"][n], sort_keys=True)[:300], json.dumps(want, sort_keys=True)[:300])
+        if real["cfg"][n] is not None:
+            vp = validity_problem(fam, real["cfg"][n])
+            if vp:
+                return "option %s: the accepted configuration is not valid for the named class: %s" % (n, vp)
+    if "inst_error" in real:
+        if any(state_has_unaccepted_dk(fam, st) for st in exp[1].values()):
+            return None
+        return "instantiate_classes fails on an accepted configuration: %s" % real["inst_error"]
+    # one constructor call per spec; the options are built in the order they were added, each with its own children first
+    want_log = []
+    for n in case["names"]:
+        st = exp[1][n]
+        if st is None:
+            if real["types"].get(n) is not None:
+                return "option %s was not given but an object was built" % n
+            continue
+        off = len(want_log)
+        for c in expected_ctors(fam, st):
+            want_log.append({"target": c["target"], "args": {k: ({"obj": a["obj"] + off} if "obj" in a else a) for k, a in c["args"].items()}, "kwargs": c["kwargs"]})
+        want_type = canonical(fam, target_class(fam, st["t"]))
+        if real["types"].get(n) != want_type:
+            return "option %s: instantiate_classes returned a %s, the configuration names %s" % (n, real["types"].get(n), want_type)
+        if cls_of(fam, st["t"]) and real["obj_idx"].get(n) != len(want_log) - 1:
+            return "option %s: the object handed out is not the one built from its own spec (call %s, expected call %d)" % (n, real["obj_idx"].get(n), len(want_log) - 1)
+    if real["ctors"] != want_log:
+        return "constructor calls differ: got %s expected %s" % (json.dumps(real["ctors"])[:400], json.dumps(want_log)[:400])
+    return None
+
+
+def multi_cases(rng, fam):
+    out = []
+    types_pool = ["Base", "Base", "Base", "SubA", "Dep"]
+    # (a) rounds of config sources that each hold (most of) the options: explicit specs (the class may change from round
+    #     to round) and short forms valid for the class the option has at that point
+    for _ in range(2):
+        names = list(rng.choice(OPTION_NAME_SETS))
+        types = {n: rng.choice(types_pool) for n in names}
+        state = {n: None for n in names}
+        steps = []
+        for rnd in range(rng.randint(2, 3)):
+            entries = []
+            for n in (names if rng.random() < 0.7 else rng.sample(names, len(names))):
+                if rng.random() < 0.15:
+                    continue
+                T = types[n]
+                try:
+                    if state[n] is not None and rng.random() < 0.3:
+                        raw = short_form_for(rng, fam, state[n])
+                    else:
+                        raw = strip_dk(gen_spec_raw(rng, fam, T))
+                    state[n] = ref_apply(fam, T, state[n], raw)
+                except Reject:
+                    continue
+                entries.append([n, raw])
+            if entries:
+                steps.append({"config": entries, "via": rng.choice(["config", "config", "cfgfile"])})
+            if rng.random() < 0.3:
+                n = rng.choice(names)
+                if state[n] is not None:
+                    ps = [p for p in target_params(fam, state[n]["t"]) if p["ty"][0] == "scalar"]
+                    if ps:
+                        p = rng.choice(ps)
+                        src = {"form": "dotted", "key": [p["name"]], "raw": rng.choice(SCALARS[p["ty"][1]]), "ia_prefix": rng.random() < 0.4}
+                        try:
+                            state[n] = ref_step(fam, types[n], state[n], src)
+                            steps.append({"opt": n, "src": src})
+                        except Reject:
+                            pass
+        out.append((fam, {"names": names, "types": types, "steps": steps}))
+    # (b) independent per-option source sequences (one of them possibly with an injected fault), interleaved; config
+    #     sources of different options that end up next to each other share one --config
+    names = list(rng.choice(OPTION_NAME_SETS))
+    types = {n: rng.choice(types_pool) for n in names}
+    per = {}
+    faulty = rng.choice(names) if rng.random() < 0.3 else None
+    for n in names:
+        srcs = []
+        for _ in range(4):
+            fault = rng.choice(FAULTS) if n == faulty else None
+            if fault == "abstract-bare" and not cls_of(fam, types[n])["abstract"]:
+                fault = "unknown-key"
+            srcs = gen_sources(rng, fam, types[n], rng.randint(1, 3), fault=fault)
+            if srcs and srcs[0]["form"] != "default":
+                break
+            srcs = []
+        per[n] = list(srcs)
+    steps = []
+    while any(per.values()):
+        n = rng.choice([k for k, v in per.items() if v])
+        # the faulty option's last source comes last of all: what the other options hold must not hide the rejection
+        if n == faulty and len(per[n]) == 1 and any(v for k, v in per.items() if k != n):
+            continue
+        src = per[n].pop(0)
+        if src["form"] == "value" and src.get("via") == "config":
+            if steps and "config" in steps[-1] and all(x[0] != n for x in steps[-1]["config"]) and rng.random() < 0.6:
+                steps[-1]["config"].append([n, src["raw"]])
+            else:
+                steps.append({"config": [[n, src["raw"]]], "via": "config"})
+        else:
+            steps.append({"opt": n, "src": src})
+    out.append((fam, {"names": names, "types": types, "steps": steps}))
+    return out
+
+
+def walk_probe(fam, case):
+    """the real work-list walk of the merge on the configuration the case parses to (both sides hold the same class specs):
+    (flat keys, keys with a class spec on both sides, keys the walk really handled at the top level) or None"""
+    import jsonargparse._typehints as th
+    from jsonargparse import ArgumentParser
+    from jsonargparse._common import parser_context
+    from jsonargparse._actions import _find_action
+
+    mod = module_for(fam)
+    parser = ArgumentParser(exit_on_error=False)
+    parser.add_argument("--config", action="config")
+    for n in case["names"]:
+        parser.add_argument("--" + n, type=getattr(mod, case["types"][n]),
+                            **({"enable_path": True} if any("opt" in st and st["opt"] == n and st["src"].get("via") == "file" for st in case["steps"]) else {}))
+    try:
+        with contextlib.redirect_stderr(io.StringIO()):
+            cfg = parser.parse_args(multi_argv(fam, case))
+    except BaseException:  # noqa: BLE001
+        return None
+    cfg.pop("config", None)
+    prev, cur = cfg.clone(), cfg.clone()
+    keys = list(prev.keys(branches=True))
+    both = [k for k in keys if th.is_subclass_spec(prev.get(k)) and th.is_subclass_spec(cur.get(k)) and isinstance(_find_action(parser, k), th.ActionTypeHint)]
+    handled, depth = [], [0]
+    orig_static = th.ActionTypeHint.__dict__["discard_init_args_on_class_path_change"]
+    orig_mod = th.discard_init_args_on_class_path_change
+
+    def rec_static(parser_or_action, prev_cfg, cfg_):
+        depth[0] += 1
+        try:
+            return orig_static.__func__(parser_or_action, prev_cfg, cfg_)
+        finally:
+            depth[0] -= 1
+
+    def rec_mod(action, prev_val, val):
+        if depth[0] == 1:
+            handled.append(action.dest)
+        return orig_mod(action, prev_val, val)
+
+    th.ActionTypeHint.discard_init_args_on_class_path_change = staticmethod(rec_static)
+    th.discard_init_args_on_class_path_change = rec_mod
+    try:
+        with parser_context(parent_parser=parser):
+            th.ActionTypeHint.discard_init_args_on_class_path_change(parser, prev, cur)
+    finally:
+        th.ActionTypeHint.discard_init_args_on_class_path_change = orig_static
+        th.discard_init_args_on_class_path_change = orig_mod
+    return keys, both, handled
+
+
+def run_walk_correspondence(ctx: Ctx, cases):
+    """Lean `discardWalk` (with the separator literal regenerated from the source) against the real walk"""
+    probes = []
+    for fam, case in cases:
+        if not case["steps"]:
+            continue
+        try:
+            pr = walk_probe(fam, case)
+        except Exception as ex:  # noqa: BLE001
+            ctx.tie_break("correspondence E10b: the work-list walk of the merge cannot be observed any more", "%s: %s" % (type(ex).__name__, str(ex)[:300]))
+            return 0
+        if pr is not None and pr[1]:
+            probes.append(pr)
+    if not probes:
+        return 0
+    try:
+        model = ctx.driver("ClassPath", [{"walk": {"keys": k, "both": b}} for k, b, _ in probes])
+    except MachineryError as ex:
+        if ctx.lean_ok:
+            raise
+        ctx.tie_break("correspondence E10b not runnable (model does not build)", str(ex))
+        return 0
+    bad = 0
+    for (keys, both, handled), m in zip(probes, model):
+        ctx.count()
+        ctx.hist("walk", "%d keys/%d handled" % (len(keys), len(handled)))
+        if m.get("handled") != handled:
+            bad += 1
+            if bad <= 2:
+                ctx.tie_break("correspondence E10b (work-list walk of ActionTypeHint.discard_init_args_on_class_path_change vs discardWalk) disagrees",
+                              json.dumps({"keys": keys, "both": both, "real": handled, "model": m.get("handled")})[:1500])
+    return bad
+
+
+def run_multi(ctx: Ctx, cases, origin):
+    for fam, case in cases:
+        if not case["steps"] or multi_skip(fam, case):
+            continue
+        ctx.count()
+        real = multi_real(fam, case)
+        ctx.hist("multi_option", "%d options/%d steps/%s" % (len(case["names"]), len(case["steps"]), real["kind"]))
+        ctx.hist("multi_option_names", "prefix-related" if any(a != b and b.startswith(a) for a in case["names"] for b in case["names"]) else "unrelated")
+        dev = multi_problem(fam, case, real)
+        if dev is None:
+            if real["kind"] == "ok" and real.get("ctors"):
+                ctx.nontrivial(json.dumps(["multi", family_src(fam), case["names"], multi_argv(fam, case)]))
+            continue
+
+        def still(steps):
+            c = dict(case, steps=steps)
+            return bool(steps) and not multi_skip(fam, c) and multi_problem(fam, c, multi_real(fam, c)) is not None
+
+        small = dict(case, steps=shrink_sources(fam, None, case["steps"], still) if len(ctx.violations) < 5 else case["steps"])
+        r2 = multi_real(fam, small)
+        ctx.violation("several class-typed options: %s" % (multi_problem(fam, small, r2) or dev),
+                      {"kind": "multi", "origin": origin, "family": fam, "case": small, "argv": multi_argv(fam, small), "module": family_src(fam),
+                       "observed": {k: v for k, v in r2.items()}})
+
+
+# ---------------------------------------------------------------------------------------------
+# dataclass-typed arguments given in class_path form: Optional[D], List[D], Dict[str, D], Union[D, Base], Union[Base, D].
+# D is a dataclass in its OWN module (c14gen.f_<hash>.dc_<N>) whose simple name N is also the name of a class of the
+# family (SubA, SubB: subclasses of Base; Unrel: unrelated) or a fresh name: class paths that differ from D's only in the
+# module are in the input space.  A class_path is accepted for D only when it IS D (identity, not name); for a Union with a
+# class arm any other class_path goes through the class arm's check; the built object is an instance of exactly the named class.
+# A case: {"dc": N, "kind": "optData"|"listData"|"dictData"|"dataOrCls"|"clsOrData", "values": [value, ...]}
+#   value = {"cp": "D" | name notation of a family class, "ia": {k: scalar}} | {"bare": {k: scalar}} | None | {"dotted": [k, scalar]}
+# ---------------------------------------------------------------------------------------------
+F_UNION_DC = "C14-union-dataclass-spec-rebuilt-as-class-arm"
+DC_NAMES = ["SubA", "SubB", "Unrel", "Settings", "SubC"]
+DC_KINDS = ["optData", "listData", "dictData", "dataOrCls", "clsOrData"]
+
+
+def dc_fields(fam, N):
+    c = cls_of(fam, N)
+    if c is None:
+        return [P("level", ("scalar", "int"), 1), P("tag", ("scalar", "str"), "core")]
+    out = []
+    for p in c["params"]:
+        if p["ty"][0] in ("scalar", "optScalar"):
+            d = p["default"]
+            if d == "REQ" or is_lazy(d):
+                d = SCALARS[p["ty"][1]][0]
+            out.append(P(p["name"], tuple(p["ty"]), d))
+    return out or [P("level", ("scalar", "int"), 1)]
+
+
+def dc_path(fam, N):
+    return "%s.dc_%s.%s" % (pkgname(fam), N, N)
+
+
+def dc_class(fam, N):
+    module_for(fam)
+    key = (fam_hash(fam), "dc", N)
+    if key in _PKG["mods"]:
+        return getattr(_PKG["mods"][key], N)
+    d = os.path.join(pkg_dir(), "c14gen", "f_" + fam_hash(fam))
+    fields = dc_fields(fam, N)
+    src = "from dataclasses import dataclass\nfrom typing import Optional\n\nfrom .defs import LOG\n\n\n@dataclass\nclass %s:\n" % N
+    for line in params_src(fields):
+        src += "    %s\n" % line
+    src += "\n    def __post_init__(self):\n        LOG.append((%r, id(self), dict(%s), {}))\n" % (
+        "dc_%s.%s" % (N, N), ", ".join("%s=self.%s" % (f["name"], f["name"]) for f in fields))
+    with open(os.path.join(d, "dc_%s.py" % N), "w") as f:
+        f.write(src)
+    importlib.invalidate_caches()
+    mod = importlib.import_module("%s.dc_%s" % (pkgname(fam), N))
+    _PKG["mods"][key] = mod
+    return getattr(mod, N)
+
+
+def dc_type(fam, N, kind):
+    from typing import Dict, List, Optional, Union
+
+    D = dc_class(fam, N)
+    base = getattr(module_for(fam), "Base")
+    return {"optData": Optional[D], "listData": List[D], "dictData": Dict[str, D], "dataOrCls": Union[D, base], "clsOrData": Union[base, D]}[kind]
+
+
+def dc_value_json(fam, N, v):
+    if v is None:
+        return None
+    if "bare" in v:
+        return dict(v["bare"])
+    return {"class_path": dc_path(fam, N) if v["cp"] == "D" else full(fam, v["cp"]), "init_args": dict(v["ia"])}
+
+
+def dc_argv(fam, case):
+    argv = []
+    for v in case["values"]:
+        if isinstance(v, dict) and "dotted" in v:
+            argv.append("--opt.%s=%s" % (v["dotted"][0], text_of(v["dotted"][1])))
+            continue
+        j = dc_value_json(fam, case["dc"], v)
+        if case["kind"] == "listData":
+            j = [j]
+        elif case["kind"] == "dictData":
+            j = {"k1": j}
+        argv += ["--opt", json.dumps(j)]
+    return argv
+
+
+def dc_fields_ok(fields, kv):
+    """the completed field values, or None when a key is not a field / a value does not fit"""
+    out = {f["name"]: f["default"] for f in fields}
+    for k, v in kv.items():
+        f = param_of(fields, k)
+        if f is None or isinstance(v, dict):
+            return None
+        if v is None:
+            if f["ty"][0] != "optScalar":
+                return None
+        elif not scalar_ok(f["ty"][1], v):
+            return None
+        out[k] = scalar_conv(f["ty"][1], v) if v is not None else None
+    return out
+
+
+def dc_class_arm(fam, raw):
+    """does the class arm `Base` take the value (adaptable; required parameters are checked only at the end)?"""
+    try:
+        ref_apply(fam, "Base", None, raw)
+        return True
+    except Reject:
+        return False
+
+
+def dc_expected(fam, case):
+    """('reject', why) | ('none',) | ('data', fields) | ('cls', final state); plus whether the case is in the finding's class"""
+    N, kind = case["dc"], case["kind"]
+    fields = dc_fields(fam, N)
+    has_cls = kind in ("dataOrCls", "clsOrData")
+    cur = None
+    finding = False
+    for v in case["values"]:
+        if v is None:
+            if kind != "optData":
+                return ("reject", "None"), False
+            cur = ("none",)
+            continue
+        if "dotted" in v:
+            k, x = v["dotted"]
+            if cur is None or cur[0] == "none":
+                return ("reject", "dotted without value"), False
+            if cur[0] == "data":
+                got = dc_fields_ok(fields, dict(cur[2], **{k: x}))
+                if got is None:
+                    return ("reject", "field"), False
+                cur = ("data", got, dict(cur[2], **{k: x}))
+            else:
+                try:
+                    st = ref_dotted(fam, "Base", cur[2], [k], x)
+                    cur = ("cls", None, st)
+                except Reject as ex:
+                    return ("reject", str(ex)), False
+            continue
+        if "bare" in v:
+            arms = ["data", "cls"] if kind != "clsOrData" else ["cls", "data"]
+            nxt = None
+            for arm in arms:
+                if arm == "data":
+                    base_kv = dict(cur[2]) if cur is not None and cur[0] == "data" else {}
+                    got = dc_fields_ok(fields, dict(base_kv, **v["bare"]))
+                    if got is not None:
+                        nxt = ("data", got, dict(base_kv, **v["bare"]))
+                        break
+                elif has_cls:
+                    try:
+                        # the arm takes the value when it is adaptable; required parameters are checked at the end of the parse
+                        st = ref_apply(fam, "Base", cur[2] if cur is not None and cur[0] == "cls" else None, {"bare": v["bare"]})
+                        nxt = ("cls", None, st)
+                        break
+                    except Reject:
+                        pass
+            if nxt is None:
+                return ("reject", "no arm takes the dict"), False
+            cur = nxt
+            continue
+        # class_path form
+        if v["cp"] == "D":
+            got = dc_fields_ok(fields, v["ia"])
+            if got is None:
+                return ("reject", "field"), False
+            # class of the open finding: the class arm comes first, is concrete and has a parameter for every given key
+            b = cls_of(fam, "Base")
+            if kind == "clsOrData" and not b["abstract"] and all(param_of(b["params"], k) for k in v["ia"]):
+                finding = True
+            cur = ("data", got, dict(v["ia"]))
+        else:
+            if not has_cls:
+                return ("reject", "class_path is not the declared dataclass"), False
+            try:
+                st = ref_apply(fam, "Base", cur[2] if cur is not None and cur[0] == "cls" else None, {"cp": v["cp"], "ia": v["ia"], "dk": None})
+                cur = ("cls", None, st)
+            except Reject as ex:
+                return ("reject", str(ex)), False
+    if cur is not None and cur[0] == "cls":
+        try:
+            return ("cls", ref_finalize(fam, cur[2])), finding
+        except Reject as ex:
+            return ("reject", str(ex)), finding
+    return cur[:2] if cur else ("none",), finding
+
+
+def dc_real(fam, case):
+    from jsonargparse import ArgumentError, ArgumentParser
+
+    mod = module_for(fam)
+    parser = ArgumentParser(exit_on_error=False)
+    parser.add_argument("--opt", type=dc_type(fam, case["dc"], case["kind"]))
+    err = io.StringIO()
+    try:
+        with contextlib.redirect_stderr(err):
+            cfg = parser.parse_args(dc_argv(fam, case))
+    except ArgumentError as ex:
+        return {"kind": "reject", "msg": str(ex).replace("\n", " | ")[:300]}
+    except Exception as ex:  # noqa: BLE001
+        return {"kind": "crash", "msg": "%s: %s" % (type(ex).__name__, str(ex)[:300])}
+    mod.LOG.clear()
+    try:
+        init = parser.instantiate_classes(cfg)
+    except Exception as ex:  # noqa: BLE001
+        mod.LOG.clear()
+        return {"kind": "ok", "inst_error": "%s: %s" % (type(ex).__name__, str(ex)[:300])}
+    log = list(mod.LOG)
+    mod.LOG.clear()
+    obj = init.get("opt")
+    if case["kind"] == "listData" and isinstance(obj, list) and len(obj) == 1:
+        obj = obj[0]
+    elif case["kind"] == "dictData" and isinstance(obj, dict) and list(obj) == ["k1"]:
+        obj = obj["k1"]
+    out = {"kind": "ok", "calls": [n for n, _, _, _ in log]}
+    if obj is None:
+        out["type"] = None
+    else:
+        out["type"] = type(obj).__module__ + "." + type(obj).__qualname__
+        out["attrs"] = {k: lit(v) for k, v in vars(obj).items() if isinstance(v, (int, str, float, bool, type(None)))}
+        out["last_call_is_obj"] = bool(log) and log[-1][1] == id(obj)
+    return out
+
+
+def dc_problem(fam, case, real):
+    exp, finding = dc_expected(fam, case)
+    if real["kind"] == "crash":
+        return "parsing raises %s" % real["msg"], finding
+    if exp[0] == "reject":
+        if real["kind"] == "ok":
+            return "a value that must be rejected (%s) is accepted and built as %s" % (exp[1], real.get("type")), finding
+        return None, finding
+    if real["kind"] == "reject":
+        return "a valid value for a dataclass-typed argument is rejected: %s" % real["msg"], finding
+    if "inst_error" in real:
+        return "instantiate_classes fails on an accepted configuration: %s" % real["inst_error"], finding
+    if exp[0] == "none":
+        return (None if real["type"] is None else "None became a %s" % real["type"]), finding
+    if exp[0] == "data":
+        want_type = dc_path(fam, case["dc"])
+        want_attrs = {k: lit(v) for k, v in exp[1].items()}
+    else:
+        st = exp[1]
+        tc = target_class(fam, st["t"])
+        want_type = (pkgname(fam) + ".defs2." + tc[1:]) if tc.startswith("%") else modname(fam) + "." + tc
+        want_attrs = {k: lit(v) for k, v in st["ia"].items() if not isinstance(v, dict)} if cls_of(fam, st["t"]) else None
+    if real["type"] != want_type:
+        return "the class_path / value names %s, instantiate_classes built a %s" % (want_type, real["type"]), finding
+    if want_attrs is not None and {k: v for k, v in real["attrs"].items() if k in want_attrs} != want_attrs:
+        return "the built %s has %s, configured %s" % (want_type.split(".")[-1], json.dumps(real["attrs"], sort_keys=True)[:200], json.dumps(want_attrs, sort_keys=True)[:200]), finding
+    if not real.get("last_call_is_obj"):
+        return "the object handed out was not built by the last constructor call (calls %s)" % real["calls"], finding
+    return None, finding
+
+
+def dc_cases(rng, fam):
+    out = []
+    for _ in range(4):
+        N = rng.choice(DC_NAMES)
+        if N != "Settings" and cls_of(fam, N) is None:
+            continue
+        if fam.get("dup") and fam["dup"]["name"] == N:
+            continue
+        kind = rng.choice(DC_KINDS)
+        fields = dc_fields(fam, N)
+        fs = rng.sample(fields, rng.randint(1, min(2, len(fields))))
+        ia = {f["name"]: rng.choice(SCALARS[f["ty"][1]]) for f in fs}
+        r = rng.random()
+        if r < 0.3:
+            v = {"cp": "D", "ia": ia}
+        elif r < 0.75:
+            # a class of the family: most often the one that shares D's simple name
+            X = N if (cls_of(fam, N) and rng.random() < 0.7) else rng.choice(["SubA", "SubB", "Unrel", "SubC"])
+            note = rng.choice(["@", "@", "^", ""]) + X
+            if rng.random() < 0.5:
+                tp = [p for p in (target_params(fam, X) or []) if p["ty"][0] == "scalar"]
+                ia = {p["name"]: rng.choice(SCALARS[p["ty"][1]]) for p in rng.sample(tp, min(len(tp), rng.randint(1, 2)))} or ia
+            req = {p["name"]: rng.choice(SCALARS[p["ty"][1]]) for p in (target_params(fam, X) or []) if p["default"] == "REQ" and p["ty"][0] == "scalar"}
+            v = {"cp": note, "ia": dict(req, **ia)}
+        elif r < 0.92:
+            v = {"bare": ia}
+        else:
+            v = None if kind == "optData" else {"bare": ia}
+        values = [v]
+        if v is not None and kind in ("optData", "dataOrCls") and rng.random() < 0.35:
+            f = rng.choice(fields)
+            values.append({"dotted": [f["name"], rng.choice(SCALARS[f["ty"][1]])]})
+        elif v is not None and kind == "optData" and rng.random() < 0.1:
+            values.append(None)
+        out.append((fam, {"dc": N, "kind": kind, "values": values}))
+    return out
+
+
+def dc_uses_clash_or_lazy(fam, case):
+    """class arm states that involve nested class parameters are left to the single-class checks"""
+    exp, _ = dc_expected(fam, case)
+    return exp[0] == "cls" and any(isinstance(x, dict) for x in exp[1]["ia"].values())
+
+
+def run_dc(ctx: Ctx, cases, origin):
+    for fam, case in cases:
+        try:
+            if dc_uses_clash_or_lazy(fam, case):
+                continue
+        except Exception:  # noqa: BLE001
+            continue
+        ctx.count()
+        real = dc_real(fam, case)
+        dev, finding = dc_problem(fam, case, real)
+        ctx.hist("dataclass_arg", "%s/%s/%s" % (case["kind"], "D" if isinstance(case["values"][0], dict) and case["values"][0].get("cp") == "D" else
+                                                  "other-class" if isinstance(case["values"][0], dict) and "cp" in case["values"][0] else "dict", real["kind"]))
+        if dev is None:
+            if real["kind"] == "ok" and real.get("calls"):
+                ctx.nontrivial(json.dumps(["dc", family_src(fam), case]))
+            continue
+        if finding and ctx.is_open(F_UNION_DC):
+            ctx.known(F_UNION_DC, "%s (argv %s)" % (dev[:200], json.dumps(dc_argv(fam, case))[:200]))
+            continue
+        ctx.violation("dataclass-typed argument in class_path form: %s" % dev,
+                      {"kind": "dc", "origin": origin, "family": fam, "case": case, "argv": dc_argv(fam, case), "module": family_src(fam),
+                       "dataclass": {"path": dc_path(fam, case["dc"]), "fields": dc_fields(fam, case["dc"])}, "observed": real})
+
+
+# ---------------------------------------------------------------------------------------------
 # history within one process: a class_path is resolved, the object behind the path changes, the same path is used again.
 # "class_path imports to" is evaluated at parse time: the result must follow the CURRENT object.
 # ---------------------------------------------------------------------------------------------
@@ -2080,7 +2758,7 @@ def run(ctx: Ctx):
         corpus_cases = [(c["family"], c["declared"], c["sources"]) for c in corpus_all if "sources" in c]
         bad = run_cases(ctx, corpus_cases, "corpus")
         bad += run_container_multi_batch(ctx, [(c["family"], c["container"]["ckind"], c["container"]["sources"]) for c in corpus_all if "container" in c], "corpus")
-        n_fam = ctx.budget(28, 380) * (2 if ctx.search_boost > 1 else 1)
+        n_fam = ctx.budget(28, 330) * (2 if ctx.search_boost > 1 else 1)
         cases = []
         fams = []
         for _ in range(n_fam):
@@ -2126,6 +2804,23 @@ def run(ctx: Ctx):
                 run_container(ctx, fam, valid, ia)
             multi.extend(container_multi_cases(ctx.rng, fam))
         bad += run_container_multi_batch(ctx, multi, "generated")
+        # several class-typed options in one parser (names that are prefixes of each other included), several sources
+        mcases = [(c["family"], c["multi"]) for c in corpus_all if "multi" in c]
+        run_multi(ctx, mcases, "corpus")
+        mcases = []
+        for fam in fams:
+            mcases.extend(multi_cases(ctx.rng, fam))
+        run_multi(ctx, mcases, "generated")
+        bad += run_walk_correspondence(ctx, mcases[: ctx.budget(40, 300)])
+        ctx.extra["multi_option_cases"] = len(mcases)
+        # dataclass-typed arguments (Optional / List / Dict / Union with a class) given in class_path form
+        dcases = [(c["family"], c["dc_case"]) for c in corpus_all if "dc_case" in c]
+        run_dc(ctx, dcases, "corpus")
+        dcases = []
+        for fam in fams:
+            dcases.extend(dc_cases(ctx.rng, fam))
+        run_dc(ctx, dcases, "generated")
+        ctx.extra["dataclass_argument_cases"] = len(dcases)
         # instantiators registered on the parent parser and on the subcommand parser
         icases = []
         if corpus_cases:
@@ -2145,6 +2840,13 @@ def run(ctx: Ctx):
             w = f["witness"]
             if w.get("kind") == "container_multi":
                 dev, _ = container_multi_problem(w["family"], w["ckind"], w["sources"])
+                if dev is not None:
+                    ctx.known(f["id"], f["description"][:200])
+                else:
+                    ctx.stale_findings.append(f["id"])
+                continue
+            if w.get("kind") == "dc":
+                dev, _ = dc_problem(w["family"], w["case"], dc_real(w["family"], w["case"]))
                 if dev is not None:
                     ctx.known(f["id"], f["description"][:200])
                 else:
@@ -2174,6 +2876,27 @@ def replay(ctx: Ctx, body):
             print("expected:", json.dumps(reference(fam, T, sources), ensure_ascii=True, default=repr)[:800])
             dev = oracle(fam, T, sources, real)
             print("deviation:", dev)
+            return 1 if dev else 0
+        if rp.get("kind") == "multi":
+            fam, case = rp["family"], rp["case"]
+            print(family_src(fam))
+            print("options %s; parse_args(%r)" % (", ".join("--%s: %s" % (n, case["types"][n]) for n in case["names"]), multi_argv(fam, case)))
+            real = multi_real(fam, case)
+            print("observed:", json.dumps(real, ensure_ascii=True, default=repr)[:1500])
+            print("expected:", json.dumps(multi_expected(fam, case), ensure_ascii=True, default=repr)[:1000])
+            dev = multi_problem(fam, case, real)
+            print("deviation:", dev)
+            return 1 if dev else 0
+        if rp.get("kind") == "dc":
+            fam, case = rp["family"], rp["case"]
+            print(family_src(fam))
+            print("dataclass %s with fields %s" % (dc_path(fam, case["dc"]), params_src(dc_fields(fam, case["dc"]))))
+            print("--opt: %s; parse_args(%r)" % (case["kind"], dc_argv(fam, case)))
+            real = dc_real(fam, case)
+            print("observed:", json.dumps(real, ensure_ascii=True, default=repr)[:1000])
+            print("expected:", json.dumps(dc_expected(fam, case), ensure_ascii=True, default=repr)[:1000])
+            dev, finding = dc_problem(fam, case, real)
+            print("deviation:", dev, "(open finding class)" if finding else "")
             return 1 if dev else 0
         if rp.get("kind") == "metamorphic":
             fam, T = rp["family"], rp["declared"]
